@@ -21,7 +21,7 @@ import ast
 
 from rsx.access import access
 from .common import (AnalysisError, Finding, RuleResult, MustFlow, ntext, walk_no_nested,
-                     body_stmts, is_self_attr, call_name, attr_path)
+                     body_stmts, is_self_attr, call_name, attr_path, single_defs)
 
 RULE = 'R20'
 TEXT = ('objects of another model cannot reach a model, set or rule: identity guards dominate '
@@ -87,6 +87,33 @@ def identity_compare(test):
     return None
 
 
+def known(test, truth):
+    """[(leaf, value)]: the sub-tests whose value is implied by `test` evaluating to `truth`"""
+    if isinstance(test, ast.UnaryOp) and isinstance(test.op, ast.Not):
+        return known(test.operand, not truth)
+    if isinstance(test, ast.BoolOp):
+        if (isinstance(test.op, ast.And) and truth) or (isinstance(test.op, ast.Or) and not truth):
+            out = []
+            for v in test.values:
+                out += known(v, truth)
+            return out
+        return []
+    return [(test, truth)]
+
+
+def mismatch_disjuncts(test):
+    """identity comparisons whose failure (the two models differ) alone makes `test` true:
+    `test` raises-on-mismatch when this is non-empty.  (leaf = v  =>  test, by contraposition of
+    known(test, False).)"""
+    out = []
+    for leaf, tv in known(test, False):
+        k = identity_compare(leaf)
+        # test false => leaf == tv ; so leaf == (not tv) => test true
+        if (k == 'neq' and tv is False) or (k == 'eq' and tv is True):
+            out.append((leaf, not tv))
+    return out
+
+
 class _IdFlow(MustFlow):
     """fact 'id-checked': a model-identity comparison has been passed on the surviving side."""
 
@@ -95,27 +122,39 @@ class _IdFlow(MustFlow):
         self.sink_pred = sink_pred
         self.sinks = []       # (node, guarded)
 
-    def _leaves(self, test, want_false):
-        """sub-tests that are known false (want_false) / true on this branch"""
-        if isinstance(test, ast.BoolOp):
-            if (isinstance(test.op, ast.Or) and want_false) or (isinstance(test.op, ast.And) and not want_false):
-                out = []
-                for v in test.values:
-                    out += self._leaves(v, want_false)
-                return out
-            return []
-        if isinstance(test, ast.UnaryOp) and isinstance(test.op, ast.Not):
-            return self._leaves(test.operand, not want_false)
-        return [test]
+    defs = {}          # single-definition locals of the function (aliases of model expressions)
 
     def refine(self, test, branch, state):
-        for leaf in self._leaves(test, want_false=not branch):
+        raw = test
+        if self.defs:
+            from .common import expand_locals
+            test = expand_locals(None, test, defs=self.defs)
+        for leaf, tv in known(test, branch):
             k = identity_compare(leaf)
-            if k == 'neq' and not branch:
+            if (k == 'neq' and not tv) or (k == 'eq' and tv):
                 state = state | {'id-checked'}
-            if k == 'eq' and branch:
-                state = state | {'id-checked'}
-        return state | {('cond', branch, ntext(test))}
+            # any(x.model is not M for x in ITEMS) is false / all(x.model is M for x in ITEMS) is true:
+            # every element of ITEMS has passed the identity test
+            if isinstance(leaf, ast.Call) and isinstance(leaf.func, ast.Name) and len(leaf.args) == 1 and \
+                    isinstance(leaf.args[0], (ast.GeneratorExp, ast.ListComp)) and \
+                    len(leaf.args[0].generators) == 1 and not leaf.args[0].generators[0].ifs:
+                g = leaf.args[0].generators[0]
+                elt = leaf.args[0].elt
+                tgt = {y.id for y in ast.walk(g.target) if isinstance(y, ast.Name)}
+                hit = False
+                if leaf.func.id == 'any' and tv is False:
+                    hit = any(tgt & {y.id for y in ast.walk(l2) if isinstance(y, ast.Name)}
+                              for l2, _v in mismatch_disjuncts(elt))
+                elif leaf.func.id == 'all' and tv is True:
+                    hit = any(identity_compare(l2) == ('eq' if v2 else 'neq') and
+                              tgt & {y.id for y in ast.walk(l2) if isinstance(y, ast.Name)}
+                              for l2, v2 in known(elt, True))
+                if hit:
+                    # the iterable as written (a local name) identifies the validated collection
+                    for r0 in ast.walk(raw):
+                        if isinstance(r0, (ast.GeneratorExp, ast.ListComp)) and isinstance(r0.generators[0].iter, ast.Name):
+                            state = state | {('validated', r0.generators[0].iter.id)}
+        return state | {('cond', branch, ntext(raw))}
 
     def after_loop(self, loop, state):
         # validation loop: `for x in ITEMS: if x.model is not M: raise` -- afterwards every
@@ -124,9 +163,8 @@ class _IdFlow(MustFlow):
             x = loop.target.id
             for n in ast.walk(ast.Module(body=loop.body, type_ignores=[])):
                 if isinstance(n, ast.If) and any(isinstance(s, ast.Raise) for s in n.body):
-                    for leaf in self._leaves(n.test, want_false=False) or [n.test]:
-                        if identity_compare(leaf) == 'neq' and any(
-                                isinstance(y, ast.Name) and y.id == x for y in ast.walk(leaf)):
+                    for leaf, tv in mismatch_disjuncts(n.test):
+                        if any(isinstance(y, ast.Name) and y.id == x for y in ast.walk(leaf)):
                             return state | {('validated', loop.iter.id)}
         return state
 
@@ -161,6 +199,27 @@ def sink_predicate(kind):
     raise AnalysisError('unknown sink kind ' + kind)
 
 
+def _rejects_multi(fi, test):
+    """the test holds for every objective with more than one entry: a comparison  <size> > 1
+    (or >= 2, != 1, 1 < <size>) whose operand is built from a .size / np.prod / len"""
+    from .common import expand_locals, const_num
+    t = expand_locals(fi.node, test)
+    for c in ast.walk(t):
+        if not (isinstance(c, ast.Compare) and len(c.ops) == 1):
+            continue
+        l, op, r = c.left, c.ops[0], c.comparators[0]
+        if const_num(l) is not None:
+            l, r = r, l
+            op = {ast.Lt: ast.Gt, ast.LtE: ast.GtE}.get(type(op), type(op))()
+        k = const_num(r)
+        if (isinstance(op, ast.Gt) and k == 1) or (isinstance(op, ast.GtE) and k == 2) or \
+                (isinstance(op, ast.NotEq) and k == 1):
+            txt = ntext(l)
+            if '.size' in txt or 'np.prod(' in txt or 'len(' in txt:
+                return True
+    return False
+
+
 def run(repo):
     res = RuleResult(RULE, 'model-identity and misuse guards', TEXT)
     res.floor = 45
@@ -169,6 +228,7 @@ def run(repo):
         fi = repo.func(fq)
         res.functions.add(fq)
         fl = _IdFlow(sink_predicate(kind))
+        fl.defs = single_defs(fi.node)
         fl.run(body_stmts(fi))
         seen = {}
         for n, g in fl.sinks:
@@ -218,6 +278,7 @@ def run(repo):
                     any(c in t for c in ('Affine', 'Vars', 'RoAffine'))):
                 continue
             fl = _IdFlow()
+            fl.defs = single_defs(fi.node)
             o = fl.walk(node.body, frozenset())
             exits = [(st, nd, 'return') for st, nd in o.returns]
             if o.normal is not None and tail_builds:
@@ -246,9 +307,8 @@ def run(repo):
         found = 0
         for n in walk_no_nested(fi.node):
             if isinstance(n, ast.If) and any(isinstance(s, ast.Raise) for s in n.body):
-                fl = _IdFlow()
-                if any(identity_compare(l) == 'neq' for l in fl._leaves(n.test, want_false=False)) or \
-                        identity_compare(n.test) == 'neq':
+                from .common import expand_locals
+                if mismatch_disjuncts(expand_locals(fi.node, n.test)):
                     found += 1
         ok = found > 0
         res.inst({'function': fq, 'raising_identity_tests': found}, ok)
@@ -272,7 +332,7 @@ def run(repo):
                                        ('cond', True, 'self.obj is None') in state)
         fl = _Set()
         fl.run(body_stmts(fi))
-        size_guard = any(isinstance(n, ast.If) and 'size > 1' in ntext(n.test)
+        size_guard = any(isinstance(n, ast.If) and _rejects_multi(fi, n.test)
                          and any(isinstance(s, ast.Raise) for s in n.body) for n in walk_no_nested(fi.node))
         ok = bool(fl.stores) and all(fl.stores) and size_guard
         res.inst({'setter': fq, 'redefinition_guard': bool(fl.stores) and all(fl.stores),
